@@ -199,8 +199,8 @@ check("C12",
            "interface unit and a module implementation unit; in every final state, for every region: enclosing()==model parent, the "
            "outward walk reaches the global region in exactly depth steps, global() only at the root (whose enclosing() throws "
            "logic_error), owner() per kind; parameters/enumerators/bases: home region, level, zero-based position; handler regions; "
-           "unnamed global namespace typed `namespace` and named by the unit's own Lexicon; module links; plus member lists of 300 and 1100 "
-           "(thorough 70000) parameters (mapping, lambda, requires, function declarator), enumerators and up to 2000 bases: position == index, "
+           "unnamed global namespace typed `namespace` and named by the unit's own Lexicon; module links; plus member lists of 300, 1100 "
+           "and 66000 (thorough 70000; past 2^16) parameters (mapping, lambda, requires, function declarator), enumerators and up to 2000 bases: position == index, "
            "level, home region; histories of <= 3 operations also with a second Lexicon opening the same regions in lockstep and with a transient "
            "Lexicon repeating the history so far after every step, both validated like the first. distinct_nontrivial = histories nesting to depth >= 2.",
       text="All construction histories up to the bound on the real region/unit classes against a parent-pointer tree "
